@@ -114,8 +114,8 @@ Phases == {"EI", "LFPS", "TSEQ", "TS1", "TS2", "LI", "TSX", "NONE"}
 LkInit == [
     up      |-> FALSE,    \* `trained`
     rst     |-> FALSE,    \* warm-reset signalling present
-    sRst    |-> 0,        \* cycles since it started
-    sDown   |-> TCap,     \* cycles since `down`
+    sRst    |-> Min(RstSlack + 1, TCap),      \* cycles since it started
+    sDown   |-> Min(DownSlack + 1, TCap),     \* cycles since `down`
     ph      |-> "NONE",   \* what the transmitter visibly does
     phHot   |-> FALSE,    \* ... with the Hot Reset bit in its TS2 sets
     \* since the last reset / fall-back to electrical idle
@@ -129,7 +129,6 @@ LkInit == [
     pIdling |-> FALSE,    \* the partner has been sending logical idle since its last other word
     \* U0 timers: cycles since the last link command word we sent / since the last reception
     ks      |-> 0,
-    ksStart |-> 0,        \* ks when the link command in flight started
     rs      |-> 0,
     rarmed  |-> FALSE,    \* rs is meaningful (no ambiguous reception since it restarted)
     ts1Req  |-> 0,        \* > 0: cycles since eight TS1 sets arrived in U0 (recovery requested by the partner)
@@ -140,14 +139,19 @@ LkInit == [
     gSkp    |-> 0         \* words of link commands / packets / training sets that a SKP could replace (never)
   ]
 
-\* dt cycles pass
-Adv(k, dt) == [k EXCEPT !.sRst = Sat(@ + dt), !.sDown = Sat(@ + dt), !.ks = Sat(@ + dt), !.rs = Sat(@ + dt),
-                        !.ts1Req = IF @ > 0 THEN Sat(@ + dt) ELSE 0]
+\* dt cycles pass.  A counter is only kept up to the point where it has passed every threshold it is compared with
+\* (and not at all if that threshold lies beyond TCap, i.e. the timer is switched off in this model).
+Adv(k, dt) == [k EXCEPT !.sRst   = Min(@ + dt, Min(RstSlack + 1, TCap)),
+                        !.sDown  = Min(@ + dt, Min(DownSlack + 1, TCap)),
+                        !.ks     = IF K + KaSlack < TCap THEN Min(@ + dt, K + KaSlack + 1) ELSE 0,
+                        !.rs     = IF R + RecSlack < TCap THEN Min(@ + dt, R + RecSlack + 1) ELSE 0,
+                        !.ts1Req = IF @ > 0 THEN Min(@ + dt, Min(TsSlack + 2, TCap)) ELSE 0]
 
 \* what has to be the case after dt more cycles, whatever happens then (lateness)
-LateJudge(k, e) ==     \* k = link state with time already advanced, e = kind of the record at that time
-    IF k.up /\ k.rst /\ k.sRst > RstSlack THEN "reset_link_ready"
-    ELSE IF k.up /\ k.ts1Req > TsSlack + 1 THEN "recovery_request_ignored"
+RecentRst(k) == k.rst \/ k.sRst <= RstSlack
+LateJudge(k) ==        \* k = link state with time already advanced
+    IF k.up /\ k.rst /\ RstSlack < TCap /\ k.sRst > RstSlack THEN "reset_link_ready"
+    ELSE IF k.up /\ TsSlack + 2 <= TCap /\ k.ts1Req > TsSlack + 1 THEN "recovery_request_ignored"
     ELSE IF k.up /\ k.rarmed /\ R + RecSlack < TCap /\ k.rs > R + RecSlack THEN "recovery_late"
     ELSE IF k.up /\ k.busy = "none" /\ K + KaSlack < TCap /\ k.ks > K + KaSlack THEN "keepalive_late"
     ELSE "ok"
@@ -170,7 +174,7 @@ UpJudge(k) ==
 \* why the link may leave U0
 DownJudge(k) ==
     IF ~k.up THEN "down_while_down"
-    ELSE IF k.rst \/ k.ts1Req > 0 THEN "ok"
+    ELSE IF RecentRst(k) \/ k.ts1Req > 0 THEN "ok"
     ELSE IF t_recovOwed \/ r_gRecov THEN "ok"                 \* lost header / credit synchronisation [7.2.4.1.5]
     ELSE IF ~k.rarmed THEN "ok"                               \* (timer restarted by an ambiguous reception)
     ELSE IF k.rs >= R THEN "ok"                               \* 1 ms without reception
@@ -185,11 +189,9 @@ NsJudge(r)  == IF r.ns > 0 THEN "skp_opportunity_withheld" ELSE "ok"
 First2(a, b) == IF a # "ok" THEN a ELSE b
 First3(a, b, c) == First2(a, First2(b, c))
 
-Judge(r) ==
-  LET k == Adv(lk, r.dt)
-      late == LateJudge(k, r.e)
-  IN
-  IF late # "ok" THEN late ELSE
+\* (k = the link state with r.dt cycles added; passed as an argument so that TLC evaluates it once)
+JudgeK(k, r) ==
+  IF LateJudge(k) # "ok" THEN LateJudge(k) ELSE
   CASE r.e = "tick"  -> "ok"
     [] r.e = "rst"   -> IF r.on = k.rst THEN "env_rst_level" ELSE "ok"
     [] r.e = "det"   -> "ok"
@@ -214,7 +216,7 @@ Judge(r) ==
                         ELSE "ok"
     [] r.e = "up"    -> UpJudge(k)
     [] r.e = "down"  -> DownJudge(k)
-    [] r.e = "txph"  -> IF k.up /\ r.ph \in {"TSEQ", "TS1", "TS2", "LFPS"} THEN "training_while_link_ready" ELSE "ok"
+    [] r.e = "txph"  -> IF k.up /\ r.ph # "LI" THEN "training_while_link_ready" ELSE "ok"
     [] r.e = "txs"   -> IF k.busy # "none" \/ r_cur # "none" THEN "tx_overlap"
                         ELSE IF ~k.up /\ k.sDown > DownSlack THEN "link_command_while_down"
                         ELSE NsJudge(r)
@@ -223,7 +225,7 @@ Judge(r) ==
                         ELSE IF ~r.valid THEN "tx_malformed"
                         ELSE IF r_cur = "stale_up" THEN "ok"
                         ELSE IF r_cur = "stale" THEN (IF r_enabled THEN "stale_command_after_up" ELSE "ok")
-                        ELSE IF r.cmd = LUP /\ ~r_kaMay THEN "keepalive_not_owed"       \* (see KaDue)
+                        ELSE IF r.cmd = LUP /\ ~r_kaMay THEN "keepalive_early"          \* (see KaDue)
                         ELSE Rx!TxJudge(r.cmd, r.sub)
     [] r.e = "hps"   -> IF k.busy # "none" \/ t_cur.k # "none" THEN "tx_overlap"
                         ELSE IF NsJudge(r) # "ok" THEN NsJudge(r)
@@ -254,22 +256,23 @@ Judge(r) ==
                         ELSE "ok"
     [] OTHER -> "unknown_record"
 
-\* The keep-alive timer: a keep-alive (LUP) may be requested once no link command has gone out for K - KaEarly cycles
-\* (an internal step -- schedule_keepalive is not observable); it is owed K + KaSlack cycles after the last one
-\* (LateJudge).  Evaluated for the link command in flight: at its start.
-KaDue(k) == k.up /\ ~r_kaMay /\ k.ksStart + KaEarly >= K
+\* The keep-alive timer: a keep-alive (LUP) is requested once no link command has gone out for K - KaEarly cycles
+\* (an internal step -- schedule_keepalive is not observable; it is taken right before the record of the next link
+\* command start, whatever command that is: the request stays pending until the LUP went out); it must have started
+\* K + KaSlack cycles after the last link command unless another unit holds the wire (LateJudge).
+KaDue(k) == k.up /\ ~r_kaMay /\ k.ks + KaEarly >= K
 
 -----------------------------------------------------------------------------
 (* Applying a record (only when Judge(r) = "ok").                           *)
 ClearTraining(k) == [k EXCEPT !.pTs2 = FALSE, !.dTs2 = FALSE, !.pHot = FALSE, !.dHot = FALSE]
 
-Apply(r) ==
-  LET k == Adv(lk, r.dt) IN
+ApplyK(k, r) ==
   /\ ev' = r
   /\ CASE r.e = "tick"  -> lk' = k /\ UNCHANGED <<rxv, txv, todo>>
        [] r.e = "rst"   ->
-            /\ lk' = IF r.on THEN [ClearTraining(k) EXCEPT !.rst = TRUE, !.sRst = 0, !.det = FALSE, !.lfps = FALSE]
-                     ELSE [k EXCEPT !.rst = FALSE]
+            /\ lk' = IF ~r.on THEN [k EXCEPT !.rst = FALSE]
+                     ELSE IF k.up THEN [k EXCEPT !.rst = TRUE, !.sRst = 0]           \* (the rest at "down")
+                     ELSE [ClearTraining(k) EXCEPT !.rst = TRUE, !.sRst = 0, !.det = FALSE, !.lfps = FALSE]
             /\ IF r.on /\ ~r_enabled THEN Rx!UsbReset ELSE UNCHANGED rxv     \* (while up: see "down")
             /\ UNCHANGED <<txv, todo>>
        [] r.e = "det"   -> lk' = [k EXCEPT !.det = ~k.rst] /\ UNCHANGED <<rxv, txv, todo>>
@@ -284,12 +287,11 @@ Apply(r) ==
        [] r.e = "pidle" -> lk' = [k EXCEPT !.pIdling = TRUE] /\ UNCHANGED <<rxv, txv, todo>>
        [] r.e = "hdr"   ->
             /\ Rx!HdrArrive(r.kind, r.d, r.c)
-            /\ lk' = IF r.kind = "good" /\ r.d = 0 THEN [k EXCEPT !.rs = 0, !.rarmed = TRUE, !.pIdling = FALSE]
-                     ELSE [k EXCEPT !.rarmed = FALSE, !.pIdling = FALSE]
+            /\ lk' = IF r.kind = "good" /\ r.d = 0 THEN [k EXCEPT !.rs = 0, !.rarmed = TRUE]
+                     ELSE [k EXCEPT !.rarmed = FALSE]
             /\ UNCHANGED <<txv, todo>>
        [] r.e = "lc"    ->
-            /\ lk' = IF r.valid THEN [k EXCEPT !.rs = 0, !.rarmed = TRUE, !.pIdling = FALSE]
-                     ELSE [k EXCEPT !.pIdling = FALSE]
+            /\ lk' = IF r.valid THEN [k EXCEPT !.rs = 0, !.rarmed = TRUE] ELSE k
             /\ IF ~r.valid THEN UNCHANGED <<rxv, txv, todo>>
                ELSE IF r.cmd = LGOOD THEN Tx!PartnerLgood(r.sub % 8) /\ UNCHANGED <<rxv, todo>>
                ELSE IF r.cmd = LCRD THEN Tx!PartnerLcrd(r.sub) /\ UNCHANGED <<rxv, todo>>
@@ -300,12 +302,12 @@ Apply(r) ==
        [] r.e = "consume" -> Rx!Consume /\ lk' = k /\ UNCHANGED <<txv, todo>>
        [] r.e = "up"    ->
             /\ Rx!LinkUp /\ Tx!LinkUp
-            /\ lk' = [k EXCEPT !.up = TRUE, !.ks = 0, !.ksStart = 0, !.rs = 0, !.rarmed = TRUE, !.ts1Req = 0,
-                               !.gFirst = "none"]
+            /\ lk' = [k EXCEPT !.up = TRUE, !.ks = 0, !.rs = 0, !.rarmed = TRUE, !.ts1Req = 0, !.gFirst = "none"]
             /\ UNCHANGED todo
        [] r.e = "down"  ->
-            /\ Rx!LinkDown(k.rst) /\ Tx!LinkDown
-            /\ lk' = [ClearTraining(k) EXCEPT !.up = FALSE, !.sDown = 0, !.ts1Req = 0, !.rarmed = FALSE]
+            /\ Rx!LinkDown(RecentRst(k)) /\ Tx!LinkDown
+            /\ lk' = [ClearTraining(k) EXCEPT !.up = FALSE, !.sDown = 0, !.ts1Req = 0, !.rarmed = FALSE,
+                                              !.det = @ /\ ~RecentRst(k), !.lfps = @ /\ ~RecentRst(k)]
             /\ todo' = <<>>
        [] r.e = "txph"  ->
             /\ lk' = LET k1 == [k EXCEPT !.ph = r.ph, !.phHot = r.hot] IN
@@ -320,7 +322,7 @@ Apply(r) ==
             /\ UNCHANGED <<txv, todo>>
        [] r.e = "txs"   ->
             /\ Rx!TxStart
-            /\ lk' = [k EXCEPT !.busy = "lc", !.ksStart = k.ks, !.ks = 0,
+            /\ lk' = [k EXCEPT !.busy = "lc", !.ks = 0,
                                !.gDownTx = IF ~k.up /\ k.sDown > DownSlack THEN @ + 1 ELSE @]
             /\ UNCHANGED <<txv, todo>>
        [] r.e = "txe"   ->
@@ -344,6 +346,9 @@ Apply(r) ==
                            /\ UNCHANGED <<rxv, txv, todo>>
        [] r.e = "quiet" -> lk' = k /\ UNCHANGED <<rxv, txv, todo>>
 
+Judge(r) == JudgeK(Adv(lk, r.dt), r)
+Apply(r) == ApplyK(Adv(lk, r.dt), r)
+
 \* one observable step
 Step(r) == todo = <<>> /\ Judge(r) = "ok" /\ Apply(r)
 
@@ -356,9 +361,9 @@ Tau ==
     /\ CASE Head(todo) = "retry" ->      \* the transmitter noticed the LBAD; the receiver half owes the LRTY
                 IF t_lbadSeen /\ r_enabled THEN Tx!RetryReq /\ Rx!RetryReq ELSE UNCHANGED <<rxv, txv>>
 
-\* the keep-alive timer fired for the link command that just started (taken right before its `txe` record)
-KaReq ==
-    /\ todo = <<>> /\ KaDue(lk) /\ r_enabled
+\* the keep-alive timer fired (dt = cycles that passed since the last record)
+KaReq(dt) ==
+    /\ todo = <<>> /\ KaDue(Adv(lk, dt)) /\ r_enabled
     /\ ev' = [e |-> "tau", what |-> "ka"]
     /\ Rx!KeepaliveReq
     /\ UNCHANGED <<txv, lk, todo>>
@@ -381,14 +386,15 @@ UpOnlyTrained == lk.up => (lk.det /\ lk.lfps /\ ~(lk.rst /\ lk.sRst > RstSlack))
 
 \* C41 / C38 (a): nothing of U0 is transmitted or delivered while the link is down
 NothingWhileDown == lk.gDownTx = 0
-StaleOnlyWhileDown == (r_cur = "stale" /\ lk.up) => FALSE
-NoHeaderFlightBeforeBringup == (t_cur.k \in {"real", "void"}) => (lk.up \/ TRUE)
+
+\* one wire: the unit in flight belongs to exactly one of the two halves
+BusyAgree == /\ (lk.busy = "lc") = (r_cur # "none")
+             /\ (lk.busy = "hp") = (t_cur.k # "none")
 
 \* C38 (b): the first thing transmitted in every U0 epoch is the sequence-number advertisement; no credit, no
 \* other link command and no header packet precedes it
-AdvertisementFirst == lk.up => /\ lk.gFirst \in {"none", "adv"} \/ ~r_advPending
+AdvertisementFirst == lk.up => /\ lk.gFirst \in {"none", "adv"}
                                /\ r_advPending => (lk.gFirst = "none" /\ r_gGood = <<>> /\ r_gCred = <<>>)
-                               /\ lk.gFirst = "other" => FALSE
 
 \* C33 (d): a SKP ordered set never replaces a word of a link command, header / data packet or training set
 SkpOnlyReplacesIdle == lk.gSkp = 0
